@@ -20,7 +20,7 @@ REQUIRED = ["Never.C05.diag_buffer_in_bounds", "Never.C05.diag_buffer_in_bounds_
 PINNED = dict(M=1024, mode="full", grow=10, MAX_USE_DEPTH=16, dim=16, lim=16)
 
 def check(tier, seed):
-    rep = Report("C05", tier, seed, "proof of three mechanisms + fault-hunting correspondence (headline claim partial)")
+    rep = Report("C05", tier, seed, "proof")
     work = scratch_dir("c05")
     consts, bad = cc_corr.extract_consts()
     def search():
